@@ -88,7 +88,7 @@ def run_twins(prog):
     default where the value of the action being handled was meant. Only mutually exclusive call sites are compared
     (neither can reach the other), so "loop, then once more with another value" is not a pair."""
     from kq.analysis import discr_switches
-    res = RuleResult("R-ARM-TWINS", "alternative calls of one function in a match arm agree on which arguments come from the payload", floor=5)
+    res = RuleResult("R-ARM-TWINS", "alternative calls of one function in a match arm agree on which arguments come from the payload", floor=2)
     for f in sorted(prog.fns.values(), key=lambda x: x.norm):
         if not f.crate.startswith("kanata") or f.derive or "::tests::" in f.norm:
             continue
